@@ -81,6 +81,10 @@ pub enum Error<'a> {
 
     /// Input contains an invalid character (like a non-ASCII character)
     InvalidCharacter { char: Str<'a> },
+
+    /// A number is too big: an integer outside the 32-bit range,
+    /// or a dimension that is too large (as in TeX, at least 16384pt).
+    NumberTooBig { number: Str<'a> },
 }
 
 impl<'a> Error<'a> {
@@ -118,6 +122,7 @@ impl<'a> Error<'a> {
             MultipleDecimalPoints { .. } => "A number has multiple decimal points".into(),
             NumberWithoutUnits { .. } => "No units were provided for this number".into(),
             InvalidCharacter { .. } => "Invalid character in the input".into(),
+            NumberTooBig { .. } => "This number is too big".into(),
         }
     }
     pub fn labels(&self) -> Vec<ErrorLabel> {
@@ -279,6 +284,10 @@ MultipleDecimalPoints { point } => vec![
     },
 
             ],
+            NumberTooBig { number } => vec![ErrorLabel {
+                span: number.span(),
+                text: "integers must fit in 32 bits and dimensions must be less than 16384pt".into(),
+            }],
         }
     }
     pub fn notes(&self) -> Vec<String> {
@@ -311,7 +320,8 @@ MultipleDecimalPoints { point } => vec![
             | InvalidDimensionUnit { .. }
             | MultipleDecimalPoints { .. }
             | NumberWithoutUnits { .. }
-            | InvalidCharacter { .. } => vec![],
+            | InvalidCharacter { .. }
+            | NumberTooBig { .. } => vec![],
         }
     }
 }
